@@ -281,7 +281,11 @@ func (f *FileD) getStaticInfo(pipelineConfig *cfg.PipelineConfig, pluginKind pip
 			if err != nil {
 				logger.Fatalf("error on creating deadqueue of %s with type %q: %s", deadqueueType, pluginKind, err.Error())
 			}
-			deadqueueInfo.Config = config
+			// the registry's entry is shared by every pipeline: keep this pipeline's config in a copy (as for the main
+			// plugin below), otherwise every dead queue of this plugin type is started with the config parsed last
+			deadqueueInfoCopy := *deadqueueInfo
+			deadqueueInfoCopy.Config = config
+			deadqueueInfo = &deadqueueInfoCopy
 
 			// TODO: recursive deadqueue config
 			// deadqueueForDeadqueue := deadqueue.Get("deadqueue").MustMap()
